@@ -32,7 +32,11 @@ type c03Case struct {
 }
 
 func c03NewEmitter(c c03Case, size int) (*asm.Emitter, error) {
-	em := asm.NewEmitter(make([]byte, size), false)
+	buf := make([]byte, size)
+	for i := range buf {
+		buf[i] = 0xC3 // the target is not blank (an image being patched): bytes behind the emitted ones must stay as they are
+	}
+	em := asm.NewEmitter(buf, false)
 	if c.Base != 0 {
 		em.SetBase(c.Base)
 	}
@@ -43,6 +47,9 @@ func c03NewEmitter(c c03Case, size int) (*asm.Emitter, error) {
 	}
 	if c.Rebase != 0 {
 		em.SetBase(c.Rebase)
+		if em.PC() != c.Rebase {
+			return nil, fmt.Errorf("after SetBase($%06x) behind %d emitted bytes PC() = $%06x", c.Rebase, em.Len(), em.PC())
+		}
 	}
 	em.AssumeSEP(asm.Flags(c.Flags))
 	return em, nil
@@ -78,6 +85,21 @@ func c03OneX(em *asm.Emitter, m asmcat.Method, v uint32, cheap bool, mv reflect.
 	got := em.Bytes()
 	if len(got) != len(before)+len(want) || (!cheap && !bytes.Equal(got[:len(before)], before)) {
 		return nil, fmt.Errorf("%s($%x): Bytes() went from %d to %d bytes (earlier bytes intact: %v), the instruction is %d bytes", m.Name, v, len(before), len(got), len(got) >= len(before) && bytes.Equal(got[:len(before)], before), len(want))
+	}
+	// "appends exactly the bytes": the part of the target behind the instruction is untouched
+	for full, i := got[:cap(got)], len(got); i < len(full) && i < len(got)+8; i++ {
+		if full[i] != 0xC3 {
+			return nil, fmt.Errorf("%s($%x): the target byte %d behind the emitted instruction (offset %d) changed from c3 to %02x", m.Name, v, i-len(got), i, full[i])
+		}
+	}
+	// the tracked widths and flags change only as REP/SEP say
+	{
+		mm := asmcat.NewModel(1<<30, false, false)
+		mm.Flags = flags
+		mm.Apply(asmcat.Op{Kind: "ins", Method: m.Name, V: v, Label: "lbl"})
+		if byte(em.Flags()) != mm.Flags {
+			return nil, fmt.Errorf("%s($%x) under tracked flags %02x: the emitter now tracks %02x, want %02x", m.Name, v, flags, byte(em.Flags()), mm.Flags)
+		}
 	}
 	emitted := got[len(before):]
 	if !bytes.Equal(emitted, want) {
